@@ -289,27 +289,51 @@ func init() {
 				}
 			}
 			// 4. nothing is written to a removed connection by an operation that began after the
-			// removal had returned (approval timers included: the drain advanced past all of them)
+			// removal had returned, nor by an approval timer that was armed before the removal began
+			// (the drain advanced past all of them). Tolerated (DESIGN section 4): consequences of
+			// operations that were in flight during the removal - a timer armed by a write whose
+			// handling overlapped the removal, and anything sent on behalf of a registry entry that a
+			// request overlapping the removal may have left behind.
+			allReg := append(a.binds.collect("C10"), a.subs.collect("C10")...)
 			for _, p := range pr.Peers {
+				ambiguous := false
+				for _, o := range allReg {
+					if o.Peer != p.Name || !o.OK || (o.Kind != "bind" && o.Kind != "sub") {
+						continue
+					}
+					for _, x := range extra {
+						if x.Kind == "drop" && x.Peer == p.Name && o.Call < x.Return && x.Call < o.Return {
+							ambiguous = true
+						}
+					}
+				}
 				for _, s := range p.Conn.Out {
 					if !s.Stale {
 						continue
 					}
-					removedAt := uint64(0)
-					for _, o := range extra {
-						if o.Kind == "drop" && o.Peer == p.Name && o.Return <= s.Seq && o.Return > removedAt {
-							removedAt = o.Return
-						}
-					}
-					if removedAt != 0 && s.OpSeq > removedAt {
-						who := "operation"
-						if strings.HasPrefix(s.Task, "timer:") {
-							who = "approval-timer"
-						}
-						w.Violate("C10/write-to-removed-connection/"+who, "%s wrote %s to the removed connection of %s (connection generation %d): the operation began at %d, the removal had returned at %d",
-							s.Task, DescribeDatagram(s.D, s.Raw), p.Name, s.Gen, s.OpSeq, removedAt)
-					}
 					w.Probe("stale-write-observed")
+					var drop *RegOp
+					for i := range extra {
+						o := extra[i]
+						if o.Kind == "drop" && o.Peer == p.Name && o.Return <= s.Seq && (drop == nil || o.Return > drop.Return) {
+							drop = &extra[i]
+						}
+					}
+					if drop == nil {
+						continue
+					}
+					isTimer := strings.HasPrefix(s.Task, "timer:")
+					switch {
+					case isTimer && s.ArmSeq < drop.Call && s.OpSeq > drop.Return:
+						// armed before the removal began (so the cleanup knew it) and fired after it returned
+						w.Violate("C10/write-to-removed-connection/approval-timer", "%s (armed at %d, fired after the removal) wrote %s to the removed connection of %s (connection generation %d): the removal ran [%d,%d]",
+							s.Task, s.ArmSeq, DescribeDatagram(s.D, s.Raw), p.Name, s.Gen, drop.Call, drop.Return)
+					case !isTimer && s.OpSeq > drop.Return && !ambiguous:
+						w.Violate("C10/write-to-removed-connection/operation", "%s wrote %s to the removed connection of %s (connection generation %d): the operation began at %d, the removal had returned at %d",
+							s.Task, DescribeDatagram(s.D, s.Raw), p.Name, s.Gen, s.OpSeq, drop.Return)
+					case ambiguous:
+						w.Probe("stale-write-tolerated-in-flight-registry-request")
+					}
 				}
 			}
 			// 5. client-side bookkeeping of local client features
